@@ -15,5 +15,25 @@ for line in open(os.path.join(V, "properties.jsonl")):
         if os.path.isfile(p):
             rec[rel] = hashlib.sha1(open(p, "rb").read()).hexdigest()
     out[d["id"]] = rec
+# the documented positional order of every method's constructor parameters at the pinned commit (the check calls
+# constructors positionally in THIS order, so that a change of the order is noticed rather than followed)
+code = r"""
+import inspect, json, importlib, pkgutil, skcriteria
+from skcriteria.core.methods import SKCMethodABC
+sig = {}
+for pkg in ("skcriteria.agg", "skcriteria.preprocessing", "skcriteria.cmp", "skcriteria.cmp.ranks_rev", "skcriteria"):
+    mod0 = importlib.import_module(pkg)
+    mods = [mod0] + [importlib.import_module(pkg + "." + m.name) for m in pkgutil.iter_modules(mod0.__path__) if not m.ispkg]
+    for mod in mods:
+        for n, c in inspect.getmembers(mod, inspect.isclass):
+            if issubclass(c, SKCMethodABC) and c.__module__.startswith("skcriteria"):
+                ps = [k for k, q in inspect.signature(c.__init__).parameters.items()
+                      if k != "self" and q.kind in (q.POSITIONAL_ONLY, q.POSITIONAL_OR_KEYWORD)]
+                sig[n] = ps
+print(json.dumps(sig))
+"""
+r = subprocess.run(["/venv/bin/python", "-W", "ignore", "-c", code], capture_output=True, text=True,
+                   env=dict(os.environ, PYTHONPATH=REPO))
+out["_signatures"] = json.loads(r.stdout.strip().splitlines()[-1])
 json.dump(out, open(os.path.join(V, "harness", "anchors.json"), "w"), indent=1, sort_keys=True)
-print({k: len(v) for k, v in out.items() if k != "_commit"})
+print({k: len(v) for k, v in out.items() if not k.startswith("_")}, len(out["_signatures"]), "signatures")
